@@ -132,7 +132,7 @@ func (g *scGenState) outputType() scT {
 // uses of user directives (and @deprecated) legal at loc
 func (g *scGenState) uses(loc int) []scDU {
 	var out []scDU
-	if g.r.Intn(3) != 0 {
+	if g.r.Intn(2) != 0 {
 		return nil
 	}
 	if (loc == 10 || loc == 15) && g.r.Intn(2) == 0 {
@@ -228,7 +228,7 @@ func scWellFormed(r *rand.Rand, size int) []scItem {
 			it.Inputs = append(it.Inputs, a)
 		}
 		locs := r.Perm(11)
-		for _, l := range locs[:1+r.Intn(4)] {
+		for _, l := range locs[:2+r.Intn(6)] {
 			it.Locs = append(it.Locs, 7+l)
 		}
 		g.dirs = append(g.dirs, it)
@@ -420,7 +420,9 @@ func scPick(r *rand.Rand, items []scItem, pred func(it *scItem) bool) *scItem {
 	return &items[c[r.Intn(len(c))]]
 }
 
-func scHasFields(it *scItem) bool { return (it.K == kObject || it.K == kInterface) && len(it.Fields) > 0 }
+func scHasFields(it *scItem) bool {
+	return (it.K == kObject || it.K == kInterface) && len(it.Fields) > 0
+}
 
 func scDeepWrap(r *rand.Rand, t scT) scT {
 	for i := r.Intn(3); i > 0; i-- {
@@ -725,6 +727,27 @@ var scMuts = []scMut{
 		}
 		return false
 	}},
+	{"interface-arg-non-null-variant", func(r *rand.Rand, items []scItem) bool {
+		// the object's argument differs from the interface's only by a non-null wrapper
+		it := scPick(r, items, func(it *scItem) bool {
+			return it.K == kObject && len(it.Ifaces) > 0 && len(it.Fields) > 0 && len(it.Fields[0].Args) > 0
+		})
+		if it == nil {
+			return false
+		}
+		a := &it.Fields[0].Args[0]
+		t := &a.T
+		for t.K == 1 && r.Intn(2) == 0 { // go under some lists
+			t = t.Of
+		}
+		if t.K == 2 {
+			*t = *t.Of
+			return true
+		}
+		o := *t
+		*t = scT{K: 2, Of: &o}
+		return true
+	}},
 	{"missing-interface-arg", func(r *rand.Rand, items []scItem) bool {
 		it := scPick(r, items, func(it *scItem) bool { return it.K == kObject && len(it.Ifaces) > 0 && len(it.Fields[0].Args) > 0 })
 		if it == nil {
@@ -960,7 +983,9 @@ var scAddMuts = []struct {
 		return append(items[:len(items):len(items)], x)
 	}},
 	{"extend-duplicate-member", func(r *rand.Rand, items []scItem) []scItem {
-		it := scPick(r, items, func(it *scItem) bool { return (it.K == kObject || it.K == kEnum || it.K == kUnion || it.K == kInput) && !it.Ext })
+		it := scPick(r, items, func(it *scItem) bool {
+			return (it.K == kObject || it.K == kEnum || it.K == kUnion || it.K == kInput) && !it.Ext
+		})
 		if it == nil {
 			return nil
 		}
@@ -1254,6 +1279,27 @@ func c16Gen(r *rand.Rand, tier string) []Case {
 			}
 			out = append(out, scCase(fmt.Sprintf("s%d-a%d", i, j), ds, append(tags, "nontrivial"), scHuman(docs)))
 		}
+		for _, t := range scTargeted(r, w) {
+			var ds []sx.S
+			for _, d := range t.docs {
+				ds = append(ds, scDocSx("ok", d))
+			}
+			out = append(out, scCase(fmt.Sprintf("s%d-%s", i, t.tag), ds, []string{"nontrivial", "targeted", t.tag}, scHuman(t.docs)))
+		}
+		// a set with one violation must be refused however it is arranged: in particular when the
+		// violation only comes about through a later load (an extension of an interface, a union, ...)
+		for j := 0; j < 2; j++ {
+			mut, name := scMutate(r, w, r.Intn(scNumMuts()))
+			if mut == nil || name == "empty-definition" {
+				continue
+			}
+			docs := scPartition(r, scSplit(r, mut))
+			var ds []sx.S
+			for _, d := range docs {
+				ds = append(ds, scDocSx("ok", d))
+			}
+			out = append(out, scCase(fmt.Sprintf("s%d-m%d", i, j), ds, []string{"nontrivial", "violation-arranged", "mut:" + name}, scHuman(docs)))
+		}
 	}
 	return out
 }
@@ -1278,7 +1324,7 @@ func c14Gen(r *rand.Rand, tier string) []Case {
 		}
 		push("ok", a, "load")
 		for j := 1 + r.Intn(3); j > 0; j-- {
-			switch r.Intn(6) {
+			switch r.Intn(8) {
 			case 0: // a violation after valid content
 				for try := 0; try < 10; try++ {
 					if mut, name := scMutate(r, b, r.Intn(scNumMuts())); mut != nil {
@@ -1315,6 +1361,50 @@ func c14Gen(r *rand.Rand, tier string) []Case {
 					bad := []scItem{s, {K: kObject, N: 881, Fields: []scField{{N: 662, T: scT{N: 941}}}}}
 					push("ok", bad, "fail:after-schema-block")
 				}
+			case 6: // valid extensions of accepted types, then an extension with the wrong keyword
+				var bad []scItem
+				for _, it := range a {
+					if it.Ext || it.K == kDirective || it.K == kSchema || it.K == kScalar {
+						continue
+					}
+					x := scItem{Ext: true, K: it.K, N: it.N}
+					switch it.K {
+					case kObject, kInterface:
+						if len(it.Ifaces) > 0 || it.K == kInterface {
+							continue
+						}
+						x.Fields = []scField{{N: 680 + len(bad), T: scT{N: 0}}}
+					case kEnum:
+						x.Vals = []scEV{{N: 680 + len(bad)}}
+					case kInput:
+						x.Inputs = []scArg{{N: 680 + len(bad), T: scT{N: 0}}}
+					case kUnion:
+						continue
+					}
+					bad = append(bad, x)
+				}
+				if it := scPick(r, a, func(it *scItem) bool { return it.K == kEnum || it.K == kInput || it.K == kInterface }); it != nil && len(bad) > 0 {
+					bad = append(bad, scItem{Ext: true, K: kObject, N: it.N, Fields: []scField{{N: 699, T: scT{N: 0}}}})
+					push("ok", bad, "fail:extends-then-wrong-kind")
+				}
+			case 7: // a Mutation / Subscription type the root lacks, in a document that fails validation
+				op := 11 + r.Intn(2)
+				have := false
+				for _, it := range w {
+					if it.K == kObject && it.N == op {
+						have = true
+					}
+				}
+				hasSchema := false
+				for _, it := range w {
+					if it.K == kSchema {
+						hasSchema = true
+					}
+				}
+				if !have && !hasSchema {
+					bad := []scItem{{K: kObject, N: op, Fields: []scField{{N: 664, T: scT{N: 0}}}}, {K: kEnum, N: 883}}
+					push("ok", bad, "fail:new-operation-type-then-validation-error")
+				}
 			case 5: // an enum/union/input extension, then a failure
 				if it := scPick(r, a, func(it *scItem) bool { return it.K == kEnum || it.K == kUnion || it.K == kInput }); it != nil {
 					x := scItem{Ext: true, K: it.K, N: it.N}
@@ -1343,6 +1433,16 @@ func c14Gen(r *rand.Rand, tier string) []Case {
 		if len(b) > 0 {
 			push("ok", b, "load")
 		}
+		// what a refused load tried to add to an accepted type can be added by a later valid load
+		for _, d := range docs {
+			for _, it := range d {
+				if it.Ext && len(it.Fields) == 1 && it.Fields[0].N >= 660 && it.Fields[0].N < 700 && it.K == kObject && r.Intn(2) == 0 {
+					push("ok", []scItem{{Ext: true, K: it.K, N: it.N, Fields: []scField{it.Fields[0]}}}, "load-after-refused-extension")
+					goto added
+				}
+			}
+		}
+	added:
 		if r.Intn(2) == 0 {
 			push("ok", a, "fail:reload")
 		}
@@ -1354,6 +1454,19 @@ func c14Gen(r *rand.Rand, tier string) []Case {
 		}
 		out = append(out, scCase(fmt.Sprintf("h%d", i), ds, tags, scHuman(docs)))
 	}
+	// a directive argument of an input object type used with an object constant; a refused document
+	// that gives the input type a new field with a default must not reach into the accepted use
+	for i := 0; i < n/10+1; i++ {
+		in := scItem{K: kInput, N: 30, Inputs: []scArg{{N: 10, T: scT{N: 0}}}}
+		d := scItem{K: kDirective, N: 10, Inputs: []scArg{{N: 10, T: scT{N: 30}}}, Locs: []int{9}}
+		q := scItem{K: kObject, N: 10, Fields: []scField{{N: 10, T: scT{N: 0}}},
+			Dirs: []scDU{{N: 10, Args: []scAV{{N: 10, V: scV{K: "o", F: []int{10}, L: []scV{{K: "i", I: int64(1 + r.Intn(50))}}}}}}}}
+		x := scItem{Ext: true, K: kInput, N: 30, Inputs: []scArg{{N: 11, T: scT{N: 0}, Def: &scV{K: "i", I: 3}}}}
+		bad := scItem{K: kObject, N: 40}
+		docs := [][]scItem{{in, d, q}, {x, bad}, {{K: kEnum, N: 41, Vals: []scEV{{N: 10}}}}}
+		ds := []sx.S{scDocSx("ok", docs[0]), scDocSx("ok", docs[1]), scDocSx("ok", docs[2])}
+		out = append(out, scCase(fmt.Sprintf("hobj%d", i), ds, []string{"nontrivial", "load", "fail:extend-input-default-then-error", "object-constant"}, scHuman(docs)))
+	}
 	return out
 }
 
@@ -1361,4 +1474,153 @@ func init() {
 	props["C13"] = &Prop{Gen: c13Gen, Exec: scExec, Valid: scValid}
 	props["C14"] = &Prop{Gen: c14Gen, Exec: scExec, Valid: scValid}
 	props["C16"] = &Prop{Gen: c16Gen, Exec: scExec, Valid: scValid}
+}
+
+type scArrangement struct {
+	docs [][]scItem
+	tag  string
+}
+
+// scTargeted builds arrangements aimed at the places where a single-pass loader can go wrong.
+func scTargeted(r *rand.Rand, w []scItem) []scArrangement {
+	var out []scArrangement
+	// 1. a later load extends an interface with a field its implementers lack: refused in every
+	//    arrangement, also when the implementers came in an earlier load
+	for _, it := range w {
+		if it.K != kInterface {
+			continue
+		}
+		impl := false
+		for _, o := range w {
+			if o.K == kObject {
+				for _, i := range o.Ifaces {
+					if i == it.N {
+						impl = true
+					}
+				}
+			}
+		}
+		if impl {
+			x := scItem{Ext: true, K: kInterface, N: it.N, Fields: []scField{{N: 690, T: scT{N: 0}}}}
+			out = append(out, scArrangement{[][]scItem{scCopy(w), {x}}, "late-interface-extension"})
+			one := append(scCopy(w), x)
+			out = append(out, scArrangement{[][]scItem{one}, "interface-extension-one-document"})
+			break
+		}
+	}
+	// 2. a union whose directive uses and last member arrive through an extend block, in the same
+	//    document before / after the definition, and in a later load
+	for idx, it := range w {
+		if it.K != kUnion || len(it.Members) < 2 {
+			continue
+		}
+		var d *scItem
+		for j := range w {
+			if w[j].K == kDirective {
+				ok := false
+				for _, l := range w[j].Locs {
+					if l == 13 {
+						ok = true
+					}
+				}
+				for _, a := range w[j].Inputs {
+					if a.T.K == 2 && a.Def == nil {
+						ok = false
+					}
+				}
+				used := false
+				for _, u := range it.Dirs {
+					if u.N == w[j].N {
+						used = true
+					}
+				}
+				if ok && !used {
+					d = &w[j]
+				}
+			}
+		}
+		if d == nil {
+			break
+		}
+		base := scCopy(w)
+		n := len(it.Members)
+		base[idx].Members = it.Members[: n-1 : n-1]
+		x := scItem{Ext: true, K: kUnion, N: it.N, Members: []int{it.Members[n-1]}, Dirs: []scDU{{N: d.N}}}
+		inline := scCopy(w)
+		inline[idx].Dirs = append(inline[idx].Dirs, scDU{N: d.N})
+		out = append(out, scArrangement{[][]scItem{inline}, "union-directive-inline"})
+		out = append(out, scArrangement{[][]scItem{append(scCopy(base), x)}, "union-directive-extend-after"})
+		out = append(out, scArrangement{[][]scItem{append([]scItem{x}, scCopy(base)...)}, "union-directive-extend-before"})
+		out = append(out, scArrangement{[][]scItem{scCopy(base), {x}}, "union-directive-extend-later-load"})
+		break
+	}
+	// 3. an explicit null for a directive argument that has a default, with the directive known when
+	//    the use is read (earlier load) and unknown (same document, defined after the use)
+	for j := range w {
+		if w[j].K != kDirective {
+			continue
+		}
+		hasLoc := -1
+		for _, l := range w[j].Locs {
+			if l == 9 || l == 12 || l == 14 || l == 16 || l == 13 || l == 8 {
+				hasLoc = l
+			}
+		}
+		req := false
+		for _, a := range w[j].Inputs {
+			if a.T.K == 2 && a.Def == nil {
+				req = true
+			}
+		}
+		if hasLoc < 0 || req {
+			continue
+		}
+		kind := map[int]int{9: kObject, 12: kInterface, 14: kEnum, 16: kInput, 13: kUnion, 8: kScalar}[hasLoc]
+		for ti := range w {
+			if w[ti].K != kind || w[ti].N == w[j].N {
+				continue
+			}
+			used := false
+			for _, u := range w[ti].Dirs {
+				if u.N == w[j].N {
+					used = true
+				}
+			}
+			if used {
+				continue
+			}
+			c := scCopy(w)
+			c[j].Inputs = append(c[j].Inputs, scArg{N: 691, T: scT{N: 0}, Def: &scV{K: "i", I: 7}})
+			c[ti].Dirs = append(c[ti].Dirs, scDU{N: w[j].N, Args: []scAV{{N: 691, V: scV{K: "null"}}}})
+			var first, rest []scItem
+			for k := range c {
+				if k == j {
+					first = append(first, c[k])
+				} else {
+					rest = append(rest, c[k])
+				}
+			}
+			out = append(out, scArrangement{[][]scItem{append(append([]scItem{}, rest...), first...)}, "null-argument-directive-after"})
+			out = append(out, scArrangement{[][]scItem{append(append([]scItem{}, first...), rest...)}, "null-argument-directive-before"})
+			// the directive's own argument types must be loadable first: only when they are built in
+			plain := true
+			for _, a := range c[j].Inputs {
+				b := a.T
+				for b.Of != nil {
+					b = *b.Of
+				}
+				if b.N >= 8 {
+					plain = false
+				}
+				for range a.Dirs {
+					plain = false
+				}
+			}
+			if plain {
+				out = append(out, scArrangement{[][]scItem{first, rest}, "null-argument-directive-earlier-load"})
+			}
+			return out
+		}
+	}
+	return out
 }
